@@ -32,6 +32,8 @@ BASE_SPEC = [
         ('id', 'pk', {'type': 'int', 'auto': True}),
         ('name', 'req', {'type': 'str', 'unique': True}),
         ('credits', 'req', {'type': 'int', 'default': 1}),
+        # a tracked value: changes made in place (meta['k'] = 1, meta['l'].append(2)) are changes of the object
+        ('meta', 'opt', {'type': 'Json'}),
         ('students', 'set', {'rel': 'Person', 'reverse': 'courses'}),
     ], {}),
     ('Car', [
@@ -138,6 +140,7 @@ POOLS = {
     ('Group', 'title'): ['', 't1', 't2'],
     ('Course', 'name'): ['math', 'art', 'bio'],
     ('Course', 'credits'): [1, 2, 3],
+    ('Course', 'meta'): [{}, {'k': 1}, {'k': 2, 'l': [1]}, {'l': []}],
     ('Car', 'id'): [1, 2, 3, 4, 5, 6],
     ('Car', 'plate'): ['pl1', 'pl2', 'pl3', 'pl4'],
     ('Car', 'seats'): [None, 2, 4],
@@ -147,4 +150,7 @@ POOLS = {
 
 
 def pool(ent, attr):
-    return POOLS[(ent, attr)]
+    p = POOLS[(ent, attr)]
+    if any(isinstance(v, (dict, list)) for v in p):
+        return copy.deepcopy(p)       # mutable values: every use gets its own
+    return p
